@@ -21,8 +21,13 @@ mod routes;
 mod routes_gen;
 mod c02;
 mod c11;
+mod c11x;
 mod c12;
+mod c12x;
+mod c12fs;
 mod c13;
+mod c13x;
+mod stream_api;
 mod c09;
 mod c10;
 mod c14;
